@@ -64,7 +64,7 @@ func extAtoms() []gen.S {
 		gen.S{"exclusiveMinimum": true, "maximum": 1.0}, gen.S{"exclusiveMaximum": true, "minimum": 1.0},
 		gen.S{"multipleOf": 0.0}, gen.S{"multipleOf": -1.0}, gen.S{"multipleOf": 0.1}, gen.S{"multipleOf": 1e-9},
 		gen.S{"minimum": 1e308, "maximum": -1e308}, gen.S{"enum": gen.Arr(nil), "nullable": true},
-		gen.S{"type": "integer", "minimum": 0.5}, gen.S{"maxLength": 0.0, "minLength": 1.0},
+		gen.S{"type": "integer", "minimum": 0.5}, gen.S{"maxLength": 0.0, "minLength": 1.0}, gen.S{"minLength": 30.0}, gen.S{"type": "string", "minLength": 40.0},
 	)
 	return a
 }
